@@ -455,10 +455,10 @@ def run_shard(spec, ctx, acc):
             # counted groups as large as the count field allows, one-bit flags all set / all clear
             if G.count_names(t.defn) and not has_hp(t.defn):
                 for on in (True, False):
-                    for salt in range(1 if tier == "quick" else 4):
+                    for salt in range(1 if tier == "quick" else 2):
                         try:
                             cnodes = layout.cap_instance(t.defn, t.mode, t.clsid, forced=forced, flags_on=on, salt=salt,
-                                                         max_payload=6000 if tier == "quick" else 60000)
+                                                         max_payload=6000 if tier == "quick" else 20000)
                         except Exception:  # noqa - the generator's limits are not the library's
                             cnodes = None
                         if cnodes is None or not not_nan_floats(cnodes):
